@@ -27,11 +27,11 @@ theorem ty_joinClosed {Q : String → Prop} (hT : Q "text") : JoinClosed (fun t 
 theorem ty_linkN (ext : IExt) (lx : LExt) {Q : String → Prop} (hT : Q "text") (hO : Q "link_open") (hC : Q "link_close") :
     LinkN ext lx (TyDeep Q) :=
   ⟨fun t hc h => tyDeep_flat t hc (by rcases h with h | h <;> rw [h] <;> assumption),
-   fun t _ hc hty _ _ => tyDeep_flat t hc (by rw [hty]; exact hO)⟩
+   fun t _ _ hc hty _ _ _ => tyDeep_flat t hc (by rw [hty]; exact hO)⟩
 
 theorem ty_imageN (ext : IExt) (lx : LExt) {Q : String → Prop} (hT : Q "text") (hI : Q "image") : ImageN ext lx (TyDeep Q) := by
   refine ⟨fun t hc hty => tyDeep_flat t hc (by rw [hty]; exact hT), ?_⟩
-  intro t src cs hty _ _ hch hcs
+  intro t src cs _ hty _ _ _ hch hcs
   refine ⟨by show Q t.type; rw [hty]; exact hI, ?_⟩
   intro c hc
   have hd : descendants t = descOpt t.children := by cases t; rfl
